@@ -10,7 +10,7 @@ from bibtexparser.middlewares.names import (
 )
 from bibtexparser.model import Entry, Field, MiddlewareErrorBlock
 
-from .. import leak
+from .. import leak, spaces
 from .. import refs_names as R
 from ..canon import canon
 from ..engine import seq_iter, seq_shards
@@ -18,9 +18,9 @@ from ..engine import seq_iter, seq_shards
 ID = "C13"
 LEAN = True  # cases are distinct by construction; see engine.Acc
 RULE = (
-    "every token sequence over the 16-token name alphabet (upper/lower/caseless words incl. a brace group holding a control word, digit-led word, special characters "
-    "{\\'E}x / {\\'e}x, escapes \\'Ee / \\'ee, space, double space, '~', ',', unbalancing '{' '}' and a bare backslash) up to the "
-    "length bound; the real parse_single_name_into_parts is compared with a transcription of BibTeX's rules (validated on the "
+    "every token sequence over the 18-token name alphabet (upper/lower/caseless words incl. a brace group holding a control word, digit-led word, special characters "
+    "{\\'E}x / {\\'e}x, escapes \\'Ee / \\'ee, control words \\Ob / \\ob at depth 0, space, double space, '~', ',', unbalancing '{' '}' and a bare backslash) up to the "
+    "length bound, plus the exact token-edit balls around 4 realistic names; the real parse_single_name_into_parts is compared with a transcription of BibTeX's rules (validated on the "
     "repository's 149-name corpus) and, for pure word/separator sequences, with a constructive oracle that knows each word's "
     "designed case. Invalid names must raise InvalidNameError / become a MiddlewareErrorBlock that retains the entry. "
     "Non-trivial = valid name with >=3 words or a comma, or an invalid name (distinct by string)."
@@ -41,6 +41,8 @@ WORDS = [
     ("\\'Ee", R.U),
     ("\\'ee", R.L),
     ("{C\\dd}", R.X),  # an ordinary brace group is caseless whatever it contains (also a control word)
+    ("\\Ob", R.U),  # case taken from a control word at brace depth 0
+    ("\\ob", R.L),
 ]
 SEPS = [" ", "~", ",", "  "]
 RAW = ["{", "}", "\\"]
@@ -55,6 +57,8 @@ def bounds(tier):
         "max_len": 5 if tier == "quick" else 6,
         "word_alphabet_max_len": 7 if tier == "quick" else 8,
         "word_alphabet": SIGMA_WORDS,
+        "deviation_bases": ["".join(b) for b in BASES],
+        "deviation_bound": 2 if tier == "quick" else 3,
     }
 
 
@@ -63,7 +67,17 @@ def shards(tier):
     # deeper over words and the main separators only: up to 4 (quick) / 5 (thorough) words in every case pattern
     out += [("words", s) for s in seq_shards(SIGMA_WORDS, 7 if tier == "quick" else 8, min_len=6 if tier == "quick" else 7, prefix_len=3)]
     out += [("mw", 0), ("mw", 1), ("leak", 0)]
+    out += [("ball", b, k, st, n) for (_, b, k, st, n) in spaces.ball_shards(len(BASES), 2 if tier == "quick" else 3)]
     return out
+
+
+# realistic names as token lists over SIGMA: every name within k token edits of one of them is explored
+BASES = [
+    ["AA", " ", "bb", " ", "AA", " ", "bb"],
+    ["bb", " ", "AA", ",", " ", "AA", "~", "AA"],
+    ["AA", "{", "}", " ", "\\Ob", "{", "}", "bb", " ", "AA"],
+    ["{\\'E}x", " ", "bb", " ", "AA", ",", " ", "AA", ",", " ", "{cc}"],
+]
 
 
 def constructive(tokens):
@@ -274,6 +288,10 @@ def run_shard(shard, tier, acc):
             check_name("".join(toks), acc, toks)
     elif kind == "words":
         for toks in seq_iter(SIGMA_WORDS, shard[1]):
+            check_name("".join(toks), acc, toks)
+    elif kind == "ball":
+        for toks in spaces.ball_iter(BASES[shard[1]], SIGMA, shard):
+            acc.count("deviation_names")
             check_name("".join(toks), acc, toks)
     elif kind == "leak":
         names = ["AA bb CC", "bb CC, AA", "AA {BB", "Knuth, Jr, Donald", "AA, BB, CC, DD", "{cc} dd EE ff", "AA", "", "AA,", "1b AA bb CC dd"]
